@@ -58,6 +58,20 @@ def entries(mask):
     return "+".join("(" + ",".join(str(i) for i in row) + ")" for row in idx[:8]) + ("+..." if len(idx) > 8 else "")
 
 
+_Q4 = [(-1, -1), (1, -1), (1, 1), (-1, 1)]
+_H8 = [(-1, -1, -1), (1, -1, -1), (1, 1, -1), (-1, 1, -1), (-1, -1, 1), (1, -1, 1), (1, 1, 1), (-1, 1, 1)]
+_QE = [(0, 1), (1, 2), (2, 3), (3, 0)]
+_HE = [(0, 1), (1, 2), (2, 3), (3, 0), (4, 5), (5, 6), (6, 7), (7, 4), (0, 4), (1, 5), (2, 6), (3, 7)]
+_T3 = [(0, 0), (1, 0), (0, 1)]
+_T4 = [(0, 0, 0), (1, 0, 0), (0, 1, 0), (0, 0, 1)]
+# element class name -> (vertices, edge list for the mid-edge nodes, what follows)
+VTK_LAYOUT = {"Quad": (_Q4, [], None), "QuadraticQuad": (_Q4, _QE, None), "BiQuadraticQuad": (_Q4, _QE, "centre"),
+              "Hexahedron": (_H8, [], None), "QuadraticHexahedron": (_H8, _HE, None), "TriQuadraticHexahedron": (_H8, _HE, "faces+centre"),
+              "Triangle": (_T3, [], None), "QuadraticTriangle": (_T3, [(0, 1), (1, 2), (2, 0)], None),
+              "Tetra": (_T4, [], None), "QuadraticTetra": (_T4, [(0, 1), (1, 2), (2, 0), (0, 3), (1, 3), (2, 3)], None),
+              "Line": ([(-1,), (1,)], [], None)}
+
+
 def check_element(run, name, el, dim, domain, D, complete, nodal, bubble, rng, lo=-1.0, hi=1.0, label=None):
     """All C04 clauses for one element object."""
     label = label or name
@@ -148,6 +162,29 @@ def check_element(run, name, el, dim, domain, D, complete, nodal, bubble, rng, l
 
     # (4) nodal property, partition of unity, completeness
     pts = np.asarray(el.points, dtype=float)
+    # node positions against the literal (VTK) layout the meshes and files use, not only against the element's own table:
+    # vertices in the standard order, mid-edge nodes at the midpoints of the standard edge list, then face / volume centres
+    lay = VTK_LAYOUT.get(name)
+    if lay is not None and lo == -1.0 and hi == 1.0:
+        V, edges, rest = lay
+        V = np.asarray(V, float)
+        exp = [V]
+        if len(pts) > len(V) and edges:
+            exp.append(np.array([(V[i] + V[j]) / 2 for i, j in edges]))
+        got = pts[: sum(len(x) for x in exp)]
+        run.compare(mon, "element=%s clause=node-layout" % label, maxabs(got - np.vstack(exp)), 1e-14,
+                    "%s: element.points are not the standard vertices followed by the standard mid-edge nodes" % label, unit=unit + ":node-layout")
+        tail = pts[sum(len(x) for x in exp):]
+        if rest == "faces+centre" and len(tail) == 7:
+            cen = V.mean(0)
+            okf = sorted(tuple(np.round(t, 12)) for t in tail[:6]) == sorted(tuple(np.round(cen + 1.0 * e, 12)) for e in np.vstack([np.eye(3), -np.eye(3)]))
+            if okf and maxabs(tail[6] - cen) < 1e-14:
+                run.ok(mon, unit=unit + ":node-layout")
+            else:
+                run.fail(mon, "element=%s clause=node-layout-faces" % label, "%s: nodes 20..26 are not the six face centres and the cell centre" % label)
+        elif rest == "centre" and len(tail) == 1:
+            run.compare(mon, "element=%s clause=node-layout-centre" % label, maxabs(tail[0] - V.mean(0)), 1e-14, "%s: last node is not the cell centre" % label,
+                        unit=unit + ":node-layout")
     nn = nb if bubble is None else bubble  # number of nodal (non-bubble) functions
     if nodal:
         Hn = np.array([np.asarray(el.function(r), float) for r in pts[:nb]])
@@ -214,6 +251,23 @@ def case_lagrange(order, dim, permute):
         rng = rng_for(run.seed, "C04", "lagrange", order, dim, permute)
         el = fem.element.ArbitraryOrderLagrange(order=order, dim=dim, permute=permute)
         label = "ArbitraryOrderLagrange(order=%d,dim=%d,permute=%s)" % (order, dim, permute)
+        if permute:
+            # VTK Lagrange ordering: the 2^dim vertices first (standard order), then the interior points of the edges, then of
+            # the faces, then of the volume (judged by how many coordinates sit on the boundary of the cube)
+            P = np.asarray(el.points, float)
+            V = {1: [(-1,), (1,)], 2: _Q4, 3: _H8}[dim]
+            onb = np.isclose(np.abs(P), 1.0).sum(1)
+            nv, ne = 2 ** dim, {1: 0, 2: 4, 3: 12}[dim] * (order - 1)
+            nf = {1: 0, 2: 0, 3: 6}[dim] * (order - 1) ** 2
+            blocks_ok = (np.allclose(P[:nv], np.asarray(V, float)) and np.all(onb[nv: nv + ne] == dim - 1)
+                         and np.all(onb[nv + ne: nv + ne + nf] == dim - 2) and np.all(onb[nv + ne + nf:] == 0))
+            if dim == 1:
+                blocks_ok = np.allclose(P[:2, 0], [-1, 1]) and np.all(onb[2:] == 0)
+            if blocks_ok:
+                run.ok("element.ArbitraryOrderLagrange", unit="ArbitraryOrderLagrange:vtk-blocks", config=("lagrange-blocks", order, dim))
+            else:
+                run.fail("element.ArbitraryOrderLagrange", "element=%s clause=node-layout" % label,
+                         "%s: points are not ordered vertices -> edge interiors -> face interiors -> volume interior" % label)
         check_element(run, "ArbitraryOrderLagrange", el, dim, "cube", order, ("tensor", order), True, None, rng,
                       label=label)
         if run.tier == "thorough" and order <= 3:
